@@ -138,6 +138,10 @@ class EntryInterp(Interp):
         return super().method(o, m, args, kwargs)
 
     def attribute(self, e, env):
+        if isinstance(e.value, ast.Name) and e.value.id == "os" and e.attr.startswith("O_") and "os" not in env:
+            import os as _os
+            if isinstance(getattr(_os, e.attr, None), int):
+                return getattr(_os, e.attr)         # the open(2) flag constants
         o = self.ev(e.value, env)
         if isinstance(o, Obj) and getattr(o, "_kind", None) == "path":
             if e.attr in ("name", "stem", "suffix", "parent"):
@@ -179,6 +183,23 @@ class EntryInterp(Interp):
         if name in ("os.makedirs", "os.mkdir"):
             self.log.append((name, list(args), dict(kwargs)))
             return None
+        if name == "os.open":
+            # a file descriptor: remembered with its path and flags until os.fdopen turns it into a file object
+            return Obj(_kind="fd", _path=args[0]._p if isinstance(args[0], Obj) and getattr(args[0], "_kind", None) == "path" else args[0],
+                       _flags=args[1] if len(args) > 1 else kwargs.get("flags", 0))
+        if name == "os.fdopen" and args and isinstance(args[0], Obj) and getattr(args[0], "_kind", None) == "fd":
+            import os as _os
+            fd, mode = args[0], (args[1] if len(args) > 1 else kwargs.get("mode", "r"))
+            fl = fd._flags if isinstance(fd._flags, int) else 0
+            writes = bool(fl & (_os.O_WRONLY | _os.O_RDWR))
+            if writes and (fl & _os.O_CREAT) and (fl & _os.O_TRUNC) and not (fl & _os.O_APPEND):
+                eff = "w"               # what open(path, "w") does
+            elif writes:
+                eff = f"{mode} on a descriptor opened without O_TRUNC / O_CREAT (an existing file keeps its old tail)"
+            else:
+                eff = mode
+            self.log.append(("open", [fd._path, eff], {k: v for k, v in kwargs.items() if k != "mode"}))
+            return Obj(_kind="file", _args=[fd._path, eff], _kwargs=dict(kwargs))
         if name in ("json.dump", "json.dumps"):
             self.log.append((name, list(args), dict(kwargs)))
             return ("json.dumps", args[0]) if name == "json.dumps" else None
